@@ -321,11 +321,13 @@ def check_leaf_rows(m, colnames, df, kept, cache, check_index):
 class Reporter:
     """First MAX_REPORTED_PER_CLASS witnesses of every (clause, cls) go to b.fail; all counted."""
 
-    def __init__(self, ctx, b, limit=MAX_REPORTED_PER_CLASS):
+    def __init__(self, ctx, b, limit=MAX_REPORTED_PER_CLASS, fallback_clause=None):
         self.ctx, self.b, self.limit = ctx, b, limit
+        self.fallback_clause = fallback_clause or (ctx.prop + ".driver.judging")
         self.counts = Counter()
 
     def fail(self, clause, cls, witness, detail=""):
+        clause = clause or self.fallback_clause
         self.counts[(clause, cls)] += 1
         if self.counts[(clause, cls)] <= self.limit:
             w = dict(witness)
@@ -344,21 +346,67 @@ class Reporter:
             )
 
 
+def oracle_failure(e, clause, what, extra=None):
+    """A failure record for an exception raised while a case was being set up or judged (the oracle was fed
+    something it cannot digest, or a helper that calls the library raised): reported against the case's
+    clause with class oracle-not-applicable:<ExceptionType>; never allowed to end the run."""
+    import traceback
+
+    w = {"case": what}
+    if extra:
+        w.update(extra)
+    return {"clause": clause, "cls": f"oracle-not-applicable:{type(e).__name__}", "witness": w,
+            "detail": f"{type(e).__name__}: {e}\n" + "".join(traceback.format_exception(type(e), e, e.__traceback__))[-1500:]}
+
+
 def chunked(seq, size):
     for i in range(0, len(seq), size):
         yield seq[i : i + size]
 
 
+def _guarded(args):
+    """Pool workers hand exceptions back as data."""
+    worker, chunk = args
+    try:
+        return worker(chunk)
+    except Exception as e:  # backstop: the workers already guard every case
+        return (len(chunk), set(), [], [oracle_failure(e, None, repr(chunk[0])[:600], {"scope": "whole worker chunk"})])
+
+
 def run_pool(worker, tasks, chunk=200, procs=16):
-    """Deterministic fan-out: tasks are chunked in order, results come back in order."""
+    """Deterministic fan-out: tasks are chunked in order, results come back in order.  A worker that
+    raises, or a pool that breaks (a child died), yields failure records instead of an exception."""
     chunks = list(chunked(tasks, chunk))
     if len(chunks) <= 1:
-        return [worker(c) for c in chunks]
-    with cf.ProcessPoolExecutor(min(procs, len(chunks))) as ex:
-        return list(ex.map(worker, chunks))
+        return [_guarded((worker, c)) for c in chunks]
+    try:
+        with cf.ProcessPoolExecutor(min(procs, len(chunks))) as ex:
+            return list(ex.map(_guarded, [(worker, c) for c in chunks]))
+    except Exception as e:  # BrokenProcessPool and the like
+        return [(len(c), set(), [], [oracle_failure(e, None, repr(c[0])[:600], {"scope": "process pool broke"})]) for c in chunks]
 
 
 def merge(b, rep, results):
     for n_eval, keys, samples, failures in results:
         b.add_counts(n_eval, keys, samples)
         rep.absorb(failures)
+
+
+class guard:
+    """`with guard(ctx, clause, what):` -- last line of defence around a whole driver block: an exception is
+    recorded as a violation (class oracle-not-applicable:<Type>) and the run carries on."""
+
+    def __init__(self, ctx, clause, what):
+        self.ctx, self.clause, self.what = ctx, clause, what
+
+    def __enter__(self):
+        return self
+
+    def __exit__(self, et, ev, tb):
+        if et is None or not issubclass(et, Exception):
+            return False
+        f = oracle_failure(ev, self.clause, self.what)
+        w = dict(f["witness"])
+        w["cls"] = f["cls"]
+        self.ctx.violation(self.clause, w, f["detail"], source="bounded:" + self.what)
+        return True
